@@ -307,29 +307,63 @@ def check_scalar_ladder(ctx):
     kind, dtypes, dims = cs.params
     from ..absim import eval_bool
 
-    def variadic_table(test, dvar):
-        """truth of `test` for a dim that is the anonymous multi-axis sentinel / a named multi-axis dim / anything else"""
+    KINDS = ("anonvar", "namedvar", "anon", "named", "fixed", "symbolic")
+    CLASS_OF = {"namedvar": "_NamedVariadicDim", "named": "_NamedDim", "fixed": "_FixedDim", "symbolic": "_SymbolicDim", "anon": "_Sentinel", "anonvar": "_Sentinel"}
+    SENTINEL_OF = {"anon": "_anonymous_dim", "anonvar": "_anonymous_variadic_dim"}
+
+    def class_names(e):
+        """the class names a second argument of isinstance / the right side of `type(d) is|in` stands for"""
+        if isinstance(e, ast.Name):
+            b_ = m.resolve_name(cs, e.id)
+            if b_.kind == "class":
+                return [e.id]
+            if b_.kind == "modvar":
+                vals_ = b_.target[0].assigns.get(b_.target[1], [])
+                if len(vals_) == 1 and vals_[0] is not None:
+                    return class_names(vals_[0])
+            return None
+        if isinstance(e, (ast.Tuple, ast.List, ast.Set)):
+            out = []
+            for x in e.elts:
+                sub = class_names(x)
+                if sub is None:
+                    return None
+                out += sub
+            return out
+        return None
+
+    def dim_table(test, dvar):
+        """truth of `test` for a dim of each kind: the two multi-axis kinds, the anonymous single axis (a sentinel,
+        not a dataclass!), a named / fixed / symbolic single axis"""
         out = []
-        for k in ("anonvar", "namedvar", "other"):
+        for k in KINDS:
             def atom(e, k=k):
                 t = norm(e)
-                if t == f"{dvar} is _anonymous_variadic_dim":
-                    return k == "anonvar"
-                if t == f"{dvar} is not _anonymous_variadic_dim":
-                    return k != "anonvar"
-                if t in (f"isinstance({dvar}, _NamedVariadicDim)", f"type({dvar}) is _NamedVariadicDim"):
-                    return k == "namedvar"
+                if isinstance(e, ast.Compare) and len(e.ops) == 1 and norm(e.left) == dvar and isinstance(e.ops[0], (ast.Is, ast.IsNot)) and norm(e.comparators[0]) in SENTINEL_OF.values():
+                    v = SENTINEL_OF.get(k) == norm(e.comparators[0])
+                    return v if isinstance(e.ops[0], ast.Is) else not v
+                if isinstance(e, ast.Call) and norm(e.func) == "isinstance" and len(e.args) == 2 and norm(e.args[0]) == dvar:
+                    cn = class_names(e.args[1])
+                    if cn is not None:
+                        return CLASS_OF[k] in cn
+                if isinstance(e, ast.Compare) and len(e.ops) == 1 and norm(e.left) == f"type({dvar})" and isinstance(e.ops[0], (ast.Is, ast.IsNot, ast.In, ast.NotIn, ast.Eq, ast.NotEq)):
+                    cn = class_names(e.comparators[0])
+                    if cn is not None:
+                        v = CLASS_OF[k] in cn
+                        return v if isinstance(e.ops[0], (ast.Is, ast.In, ast.Eq)) else not v
                 raise AnalysisError(f"C15.3: unrecognised atom `{t}` in _check_scalar")
             out.append(eval_bool(test, atom))
         return out
 
+    WANT_REJECT = [False, False, True, True, True, True]
     okd = False
+    reject_tab, where = None, None
     loop = [x for x in cs.body if isinstance(x, ast.For) and norm(x.iter) == dims and isinstance(x.target, ast.Name)]
     if len(loop) == 1:
         t = [x for x in loop[0].body if isinstance(x, ast.If)]
         if len(t) == 1 and any(isinstance(x, ast.Return) and isinstance(x.value, ast.Constant) and x.value.value is False for x in t[0].body):
             # rejects when the dim is NOT a multi-axis specifier
-            okd = variadic_table(t[0].test, loop[0].target.id) == [False, False, True]
+            reject_tab, where = dim_table(t[0].test, loop[0].target.id), t[0]
     else:
         # `if not all(<dim is variadic> for dim in dims): return False` / `... any(<dim is not variadic> ...)`
         for st in cs.body:
@@ -347,13 +381,31 @@ def check_scalar_ladder(ctx):
                         tt = d_[0][1]
                 if isinstance(tt, ast.Call) and norm(tt.func) in ("all", "any") and tt.args and isinstance(tt.args[0], ast.GeneratorExp) and len(tt.args[0].generators) == 1 \
                         and norm(tt.args[0].generators[0].iter) == dims and isinstance(tt.args[0].generators[0].target, ast.Name):
-                    tab = variadic_table(tt.args[0].elt, tt.args[0].generators[0].target.id)
-                    if norm(tt.func) == "all" and neg and tab == [True, True, False]:
-                        okd = True
-                    if norm(tt.func) == "any" and not neg and tab == [False, False, True]:
-                        okd = True
+                    tab = dim_table(tt.args[0].elt, tt.args[0].generators[0].target.id)
+                    if None in tab:
+                        continue
+                    if norm(tt.func) == "all" and neg:
+                        reject_tab, where = [not v for v in tab], st
+                    if norm(tt.func) == "any" and not neg:
+                        reject_tab, where = tab, st
+    if reject_tab is not None and None not in reject_tab:
+        if reject_tab == WANT_REJECT:
+            okd = True
+        else:
+            wrong_keep = [k for k, got, want in zip(KINDS, reject_tab, WANT_REJECT) if want and not got]
+            wrong_drop = [k for k, got, want in zip(KINDS, reject_tab, WANT_REJECT) if got and not want]
+            names = {"anon": "the anonymous axis `_`", "named": "a named axis", "fixed": "a fixed-size axis", "symbolic": "a symbolic axis", "anonvar": "`...`", "namedvar": "`*name`"}
+            msg = []
+            if wrong_keep:
+                msg.append("a Python scalar type survives a shape containing " + " / ".join(names[k] for k in wrong_keep) + " (exactly one axis: rank 0 is impossible)")
+            if wrong_drop:
+                msg.append("a Python scalar type is dropped for a shape made of " + " / ".join(names[k] for k in wrong_drop) + " (which admits rank 0)")
+            ctx.bad("C15.3", cs, where, "; ".join(msg), construct="_check_scalar dim table " + str(dict(zip(KINDS, reject_tab))))
+            okd = None
     if okd:
         ctx.ok("C15.3", cs.qualname, "scalars survive only when every dim is a multi-axis specifier (the shape admits rank 0)")
+    elif okd is None:
+        pass
     elif not any("_anonymous_variadic_dim" in norm(x) or "_NamedVariadicDim" in norm(x) for x in ast.walk(cs.node) if isinstance(x, ast.expr)):
         ctx.bad("C15.3", cs, cs.node, "_check_scalar no longer looks at the dims at all: a Python scalar is admitted for shapes that do not admit rank 0", construct="_check_scalar: dims not inspected")
     else:
